@@ -47,6 +47,9 @@ class ScriptedGenerator(np.random.Generator):
         self.log.append(("choice", int(a) if np.isscalar(a) else "array", None if size is None else int(size), bool(replace)))
         if self.choice_fn is None:
             return super().choice(a, size=size, replace=replace, p=p, axis=axis, shuffle=shuffle)
+        if np.isscalar(a) and size is not None and not replace and int(size) > int(a):
+            # numpy's own contract (thejoker relies on it when the budget exceeds the library)
+            raise ValueError("Cannot take a larger sample than population when 'replace=False'")
         return np.asarray(self.choice_fn(a, size, replace), dtype=np.int64)
 
     def multivariate_normal(self, mean, cov, size=None, **kw):
@@ -157,7 +160,10 @@ class StubHelper:
             for j in range(n_linear):
                 out[k, :5] = r
                 out[k, 5:] = lin[j]
-                ll[k] = self._ll(r, i)
+                # the likelihood the POSTERIOR-DRAW kernel reports need not be the marginal likelihood of the row (the real kernel
+                # uses another K variance there when the cap binds): the stub makes it visibly different, so a sampler that
+                # reports this number instead of the marginal one is noticed
+                ll[k] = self._ll(r, i) - 0.4375
                 k += 1
         return out, ll
 
